@@ -84,7 +84,9 @@ func (U *Universe) embRef(ref string, owner types.Type, f *types.Var) string {
 	if _, ok := U.Sigs[sym]; !ok {
 		U.Sigs[sym] = &Sig{Name: sym, Args: []string{"Int"}, Res: "Int"}
 		U.extra = append(U.extra, fmt.Sprintf("(declare-fun %s (Int) Int)", sym))
-		U.extra = append(U.extra, fmt.Sprintf("(assert (forall ((r Int)) (! (=> (not (= r 0)) (not (= (%s r) 0))) :pattern ((%s r)))))", sym, sym))
+	}
+	if ref != "0" {
+		U.sideFact(fmt.Sprintf("(=> (not (= %s 0)) (not (= (%s %s) 0)))", ref, sym, ref))
 	}
 	return fmt.Sprintf("(%s %s)", sym, ref)
 }
@@ -514,7 +516,7 @@ func (c *cenv) tyarg(x *CExpr) (Term, error) {
 		if err != nil {
 			return Term{}, err
 		}
-		return Term{fmt.Sprintf("(%s %s)", U.boxSym(t), a.S), "Any", nil}, nil
+		return Term{U.boxTerm(t, a.S), "Any", nil}, nil
 	case "unbox":
 		a, err := c.tr(x.Args[0], "Any")
 		if err != nil {
@@ -601,6 +603,19 @@ func (c *cenv) call(x *CExpr, want string) (Term, error) {
 			}
 			return Term{fmt.Sprintf("(%s %s)", sg.Name, strings.Join(parts, " ")), sg.Res, rt}, nil
 		}
+	case "deref":
+		a, err := c.tr(x.Args[0], "Int")
+		if err != nil {
+			return Term{}, err
+		}
+		if a.T == nil {
+			return Term{}, fmt.Errorf("deref of a term without Go type in %s", x)
+		}
+		p, ok := types.Unalias(a.T).Underlying().(*types.Pointer)
+		if !ok {
+			return Term{}, fmt.Errorf("deref of non-pointer %s", a.T)
+		}
+		return U.loadAt(a.S, p.Elem(), c.heapTerm), nil
 	case "heap":
 		// heap(key): the current heap array for a heap key given as a dotted name
 		key := flatName(x.Args[0])
